@@ -49,6 +49,30 @@ def extra_chars(m):
     return _extra_cache[m]
 
 
+_slow_cache = {}
+
+
+def is_slow(m, v, kw=None):
+    """Deterministic cost class of one validate() call: more than 10,000 traced line events (a linear scan of a large
+    registry; ~0.5 ms).  Counted, not timed, so that the explored space does not depend on the load of the machine."""
+    import sys
+    key = (m.__name__, tuple(sorted((kw or {}).keys())))
+    if key not in _slow_cache:
+        c = [0]
+
+        def tr(frame, ev, arg):
+            c[0] += 1
+            return tr if c[0] <= 10000 else None
+        old = sys.gettrace()
+        sys.settrace(tr)
+        try:
+            _accepts(m, v, kw or {})
+        finally:
+            sys.settrace(old)
+        _slow_cache[key] = c[0] > 10000
+    return _slow_cache[key]
+
+
 def _accepts(m, t, kw):
     try:
         return m.validate(t, **kw) == t
@@ -164,13 +188,9 @@ def valid_set(name, m, tier, nseeds=None, check_positions=None, kw=None, cap=Non
     stats = {'seeds': len(nodes), 'edges': 0, 'tried': 0}
     frontier = list(nodes)
     # slow validators (registry lookups of ~4 ms): bound the number of expanded nodes, and say so
-    import time
     budget = None
     if frontier:
-        t0 = time.perf_counter()
-        for _ in range(5):
-            _accepts(m, frontier[0], kw)
-        if (time.perf_counter() - t0) / 5 > 0.0005:
+        if is_slow(m, frontier[0], kw):
             budget = 6 if depth == 1 and cap <= 5000 else 40
             stats['slow_validator_nodes_expanded_max'] = budget
     for d in range(1, depth + 1):
